@@ -168,7 +168,7 @@ def parse_kv(line):
     return d
 
 
-def codec_corr(pipe, res, nper, modes, want_dec=True, classes=None, big=False):
+def codec_corr(pipe, res, nper, modes, want_dec=True, classes=None, big=False, wide=False):
     """run enc/dec requests through the Lean driver and the real library; diff.
     -> (requests, model answers, impl answers)"""
     import codecgen
@@ -191,6 +191,12 @@ def codec_corr(pipe, res, nper, modes, want_dec=True, classes=None, big=False):
         for mode in modes:
             for _ in range(nper):
                 reqs.append(g.line(n, g.obj(n, mode, big=big)))
+        if wide:
+            # one payload just above 64 KiB per container member: beyond what a 16-bit length field can say (finding 27)
+            for i, f in enumerate(g.cls[n]['fields']):
+                if f['kind'][0] == 'vec':
+                    ew = f['kind'][1]
+                    reqs.append(g.line(n, {i: bytes(rng.randrange(256) for _ in range(((65544 + ew - 1) // ew) * ew))}))
     mod, rc, err = lib.session(drv, reqs)
     if len(mod) != len(reqs):
         res.oblige('D:driver-session', False, 'got %d answers for %d requests; rc=%s %s' % (len(mod), len(reqs), rc, err[-500:]))
@@ -494,7 +500,7 @@ def check_C03(res):
     else:
         res.oblige('S:pad-table-rederived', False, p.stdout[-500:])
     nper = 3 if res.tier == 'quick' else 25
-    reqs, mod, imp = codec_corr(pipe, res, nper, ['payload', 'random'], want_dec=True, big=(res.tier == 'thorough'))
+    reqs, mod, imp = codec_corr(pipe, res, nper, ['payload', 'random'], want_dec=True, big=(res.tier == 'thorough'), wide=True)
     res.corr['programs'] = len(summary['classes'])
     if imp:
         dis = compare_codec(res, reqs, mod, imp, summary)
@@ -1299,7 +1305,8 @@ def check_C16(res):
     finish_codec(res)
 
 
-C15_THEOREMS = ['Blf.Props.C15_init', 'Blf.Props.C15_append_container', 'Blf.Props.C15_read', 'Blf.Props.C15_read_preserves', 'Blf.Props.C15_seek_preserves', 'Blf.Props.C15_setFileSize_preserves', 'Blf.Props.C15_drop_preserves', 'Blf.Props.C15_drop_safe', 'Blf.Props.C15_read_flags']
+C15_THEOREMS = ['Blf.Props.C15_init', 'Blf.Props.C15_append_container', 'Blf.Props.C15_read', 'Blf.Props.C15_read_preserves', 'Blf.Props.C15_seek_preserves', 'Blf.Props.C15_setFileSize_preserves', 'Blf.Props.C15_drop_preserves', 'Blf.Props.C15_drop_safe', 'Blf.Props.C15_read_flags',
+                'Blf.Props.C15_byte_write', 'Blf.Props.C15_byte_read', 'Blf.Props.C15_write_session_fifo']
 C16_THEOREMS = ['Blf.Props.C16_fifo', 'Blf.Props.C16_backpressure', 'Blf.Props.C16_eos', 'Blf.Props.C16_abort_releases', 'Blf.Props.C16_positions']
 
 
@@ -2586,7 +2593,8 @@ def struct_pack(fmt, v):
 import glob as glob_mod
 C04_THEOREMS = ['Blf.Props.C04_container', 'Blf.Props.C04_file_layout', 'Blf.Props.C04_payload_is_stream', 'Blf.Props.C04_full_containers', 'Blf.Props.C04_container_sizes', 'Blf.Props.C04_stored_inflates']
 C05_THEOREMS = ['Blf.Props.C05_uncompressed_size', 'Blf.Props.C05_object_count', 'Blf.Props.C05_file_size', 'Blf.Props.C05_restore_point_offset', 'Blf.Props.C05_caller_fields_verbatim', 'Blf.Props.C05_reader_counters', 'Blf.Props.C05_count_matches']
-C08_THEOREMS = ['Blf.Props.C08_stream_prefix', 'Blf.Props.C08_monotone', 'Blf.Props.C08_cut_object_dropped', 'Blf.Props.C08_file_prefix', 'Blf.Props.C08_file_monotone']
+C08_THEOREMS = ['Blf.Props.C08_stream_prefix', 'Blf.Props.C08_monotone', 'Blf.Props.C08_cut_object_dropped', 'Blf.Props.C08_file_prefix', 'Blf.Props.C08_file_monotone',
+                'Blf.Props.C08_file_header_cut', 'Blf.Props.C08_file_every_cut']
 C09_THEOREMS = ['Blf.Props.C09_search_finds_first_signature', 'Blf.Props.C09_stream_with_filler_and_unknown_objects', 'Blf.sync_finds_first']
 C10_THEOREMS = ['Blf.Props.C10_decoder_memory_safe', 'Blf.Props.C10_read_session_ends_without_ub', 'Blf.Props.C10_parser_progress']
 
